@@ -42,7 +42,11 @@ def linear_spline(
     Reference:
     > Müller et al., Neural Importance Sampling, arXiv:1808.03856, 2018.
     """
-    if torch.min(inputs) < left or torch.max(inputs) > right:
+    if inverse:
+        domain_low, domain_high = bottom, top
+    else:
+        domain_low, domain_high = left, right
+    if torch.min(inputs) < domain_low or torch.max(inputs) > domain_high:
         raise InputOutsideDomain()
 
     if inverse:
